@@ -1,4 +1,7 @@
 const IDS: [Index; NI] = [1, 63, 64];
+// change sets sit on a DenseVecStorage whose internal slot numbers are small: dense low indices
+// make slot-number / entity-index coincidences possible, so they are the stronger universe here
+const IDS_DENSE: [Index; NI] = [0, 1, 2];
 harness! { fn q_join_and2() unwind(7) { joins::shape_and2(IDS) } }
 harness! { fn q_join_not() unwind(7) { joins::shape_not(IDS) } }
 harness! { fn q_join_maybe() unwind(7) { joins::shape_maybe(IDS) } }
@@ -16,22 +19,25 @@ harness! { fn q_restrict_read_t1() unwind(7) { restrict::restrict_read(IDS, 1) }
 harness! { fn q_restrict_read_t2() unwind(7) { restrict::restrict_read(IDS, 2) } }
 harness! { fn q_restrict_mut_lend_t0() unwind(7) { restrict::restrict_mut_lend(IDS, 0) } }
 harness! { fn q_restrict_mut_join() unwind(7) { restrict::restrict_mut_join(IDS) } }
-harness! { fn q_changeset_0000() unwind(7) { changeset::changeset_acc(IDS, [0, 0, 0, 0], (1, 1)) } }
-harness! { fn q_changeset_0101() unwind(7) { changeset::changeset_acc(IDS, [0, 1, 0, 1], (2, 1)) } }
-harness! { fn q_changeset_0120() unwind(7) { changeset::changeset_acc(IDS, [0, 1, 2, 0], (0, 2)) } }
-harness! { fn q_changeset_2101() unwind(7) { changeset::changeset_acc(IDS, [2, 1, 0, 1], (1, 2)) } }
-harness! { fn q_changeset_1120() unwind(7) { changeset::changeset_acc(IDS, [1, 1, 2, 0], (3, 0)) } }
+harness! { fn q_changeset_0000() unwind(7) { changeset::changeset_acc(IDS_DENSE, [0, 0, 0, 0], (1, 1)) } }
+harness! { fn q_changeset_0101() unwind(7) { changeset::changeset_acc(IDS_DENSE, [0, 1, 0, 1], (2, 1)) } }
+harness! { fn q_changeset_0120() unwind(7) { changeset::changeset_acc(IDS_DENSE, [0, 1, 2, 0], (0, 2)) } }
+harness! { fn q_changeset_2101() unwind(7) { changeset::changeset_acc(IDS_DENSE, [2, 1, 0, 1], (1, 2)) } }
+harness! { fn q_changeset_1120() unwind(7) { changeset::changeset_acc(IDS_DENSE, [1, 1, 2, 0], (3, 0)) } }
 // every arrival order of three distinct entities (the dense storage's internal permutation)
-harness! { fn q_changeset_2012() unwind(7) { changeset::changeset_acc(IDS, [2, 0, 1, 2], (2, 1)) } }
-harness! { fn q_changeset_0210() unwind(7) { changeset::changeset_acc(IDS, [0, 2, 1, 0], (1, 1)) } }
-harness! { fn q_changeset_1021() unwind(7) { changeset::changeset_acc(IDS, [1, 0, 2, 1], (0, 3)) } }
+harness! { fn q_changeset_2012() unwind(7) { changeset::changeset_acc(IDS_DENSE, [2, 0, 1, 2], (2, 1)) } }
+harness! { fn q_changeset_0210() unwind(7) { changeset::changeset_acc(IDS_DENSE, [0, 2, 1, 0], (1, 1)) } }
+harness! { fn q_changeset_1021() unwind(7) { changeset::changeset_acc(IDS_DENSE, [1, 0, 2, 1], (0, 3)) } }
 harness! { fn q_restrict_other_mut_t0() unwind(7) { restrict::restrict_other_mut(IDS, 0) } }
 harness! { fn q_restrict_other_mut_t2() unwind(7) { restrict::restrict_other_mut(IDS, 2) } }
+harness! { fn q_changeset_sparse_0120() unwind(7) { changeset::changeset_acc(IDS, [0, 1, 2, 0], (0, 2)) } }
+harness! { fn q_changeset_sparse_2012() unwind(7) { changeset::changeset_acc(IDS, [2, 0, 1, 2], (2, 1)) } }
 pub const REGISTRY: &[(&str, fn())] = &[
     ("q_join_and2", q_join_and2), ("q_join_not", q_join_not), ("q_join_maybe", q_join_maybe), ("q_join_entities", q_join_entities),
     ("q_join_mut", q_join_mut), ("q_join_bitset", q_join_bitset), ("q_join_bitops", q_join_bitops), ("q_join_four", q_join_four),
     ("q_join_lend_t0", q_join_lend_t0), ("q_join_lend_t1", q_join_lend_t1), ("q_join_drain", q_join_drain),
     ("q_restrict_read_t1", q_restrict_read_t1), ("q_restrict_read_t2", q_restrict_read_t2), ("q_restrict_mut_lend_t0", q_restrict_mut_lend_t0), ("q_restrict_mut_join", q_restrict_mut_join),
     ("q_restrict_other_mut_t0", q_restrict_other_mut_t0), ("q_restrict_other_mut_t2", q_restrict_other_mut_t2),
+    ("q_changeset_sparse_0120", q_changeset_sparse_0120), ("q_changeset_sparse_2012", q_changeset_sparse_2012),
     ("q_changeset_0000", q_changeset_0000), ("q_changeset_0101", q_changeset_0101), ("q_changeset_0120", q_changeset_0120), ("q_changeset_2101", q_changeset_2101), ("q_changeset_1120", q_changeset_1120), ("q_changeset_2012", q_changeset_2012), ("q_changeset_0210", q_changeset_0210), ("q_changeset_1021", q_changeset_1021),
 ];
